@@ -1,5 +1,4 @@
 use crate::models::{LengthConstraint, RangeConstraint, ValidatorAttributes};
-use quote::ToTokens;
 use syn::Attribute;
 
 /// Parser for validator attributes from Rust struct fields
@@ -12,6 +11,9 @@ impl ValidatorParser {
     }
 
     /// Parse validator attributes from field attributes
+    ///
+    /// The items of `#[validate(...)]` are read as structured meta items, so a keyword inside a
+    /// message, a `)` inside a string or a negative bound cannot confuse the recognition
     pub fn parse_validator_attributes(&self, attrs: &[Attribute]) -> Option<ValidatorAttributes> {
         let mut validator_attrs = ValidatorAttributes {
             length: None,
@@ -26,29 +28,59 @@ impl ValidatorParser {
         for attr in attrs {
             if attr.path().is_ident("validate") {
                 found_validator = true;
-                // Parse the tokens inside the validate attribute
-                if let Ok(tokens) = syn::parse2::<syn::MetaList>(attr.meta.to_token_stream()) {
-                    // Convert tokens to string and do basic parsing for now
-                    let tokens_str = tokens.tokens.to_string();
-
-                    if tokens_str.contains("email") {
+                // An item this parser does not understand ends the walk over this attribute;
+                // what was recognised before it is kept
+                let _ = attr.parse_nested_meta(|meta| {
+                    if meta.path.is_ident("email") {
                         validator_attrs.email = true;
-                    }
-
-                    if tokens_str.contains("url") {
+                        Self::skip_arguments(&meta)
+                    } else if meta.path.is_ident("url") {
                         validator_attrs.url = true;
+                        Self::skip_arguments(&meta)
+                    } else if meta.path.is_ident("length") {
+                        let mut constraint = LengthConstraint {
+                            min: None,
+                            max: None,
+                            message: None,
+                        };
+                        let parsed = meta.parse_nested_meta(|item| {
+                            if item.path.is_ident("min") {
+                                constraint.min = Self::unsigned_value(&item)?;
+                            } else if item.path.is_ident("max") {
+                                constraint.max = Self::unsigned_value(&item)?;
+                            } else if item.path.is_ident("message") {
+                                constraint.message = Self::string_value(&item)?;
+                            } else {
+                                Self::skip_arguments(&item)?;
+                            }
+                            Ok(())
+                        });
+                        validator_attrs.length = Some(constraint);
+                        parsed
+                    } else if meta.path.is_ident("range") {
+                        let mut constraint = RangeConstraint {
+                            min: None,
+                            max: None,
+                            message: None,
+                        };
+                        let parsed = meta.parse_nested_meta(|item| {
+                            if item.path.is_ident("min") {
+                                constraint.min = Self::number_value(&item)?;
+                            } else if item.path.is_ident("max") {
+                                constraint.max = Self::number_value(&item)?;
+                            } else if item.path.is_ident("message") {
+                                constraint.message = Self::string_value(&item)?;
+                            } else {
+                                Self::skip_arguments(&item)?;
+                            }
+                            Ok(())
+                        });
+                        validator_attrs.range = Some(constraint);
+                        parsed
+                    } else {
+                        Self::skip_arguments(&meta)
                     }
-
-                    // Parse length constraints
-                    if let Some(length_constraint) = self.parse_length_from_tokens(&tokens_str) {
-                        validator_attrs.length = Some(length_constraint);
-                    }
-
-                    // Parse range constraints
-                    if let Some(range_constraint) = self.parse_range_from_tokens(&tokens_str) {
-                        validator_attrs.range = Some(range_constraint);
-                    }
-                }
+                });
             }
         }
 
@@ -59,7 +91,73 @@ impl ValidatorParser {
         }
     }
 
+    /// Consume `= value` or `( ... )` after a meta item that is not looked into
+    fn skip_arguments(meta: &syn::meta::ParseNestedMeta) -> syn::Result<()> {
+        if meta.input.peek(syn::Token![=]) {
+            let _: syn::Expr = meta.value()?.parse()?;
+        } else if meta.input.peek(syn::token::Paren) {
+            let content;
+            syn::parenthesized!(content in meta.input);
+            let _: proc_macro2::TokenStream = content.parse()?;
+        }
+        Ok(())
+    }
+
+    /// `key = "text"`: the text (None for a value that is not a string literal)
+    fn string_value(meta: &syn::meta::ParseNestedMeta) -> syn::Result<Option<String>> {
+        let expr: syn::Expr = meta.value()?.parse()?;
+        if let syn::Expr::Lit(syn::ExprLit {
+            lit: syn::Lit::Str(text),
+            ..
+        }) = expr
+        {
+            return Ok(Some(text.value()));
+        }
+        Ok(None)
+    }
+
+    /// `key = 10`: the number (None for a constant path or anything else that is not a literal)
+    fn unsigned_value(meta: &syn::meta::ParseNestedMeta) -> syn::Result<Option<u64>> {
+        let expr: syn::Expr = meta.value()?.parse()?;
+        if let syn::Expr::Lit(syn::ExprLit {
+            lit: syn::Lit::Int(number),
+            ..
+        }) = expr
+        {
+            return Ok(number.base10_parse::<u64>().ok());
+        }
+        Ok(None)
+    }
+
+    /// `key = -2.5e3`: integer and float literals, with an optional leading minus
+    fn number_value(meta: &syn::meta::ParseNestedMeta) -> syn::Result<Option<f64>> {
+        let expr: syn::Expr = meta.value()?.parse()?;
+        Ok(Self::number_of(&expr))
+    }
+
+    fn number_of(expr: &syn::Expr) -> Option<f64> {
+        match expr {
+            syn::Expr::Lit(syn::ExprLit {
+                lit: syn::Lit::Int(number),
+                ..
+            }) => number.base10_digits().parse::<f64>().ok(),
+            syn::Expr::Lit(syn::ExprLit {
+                lit: syn::Lit::Float(number),
+                ..
+            }) => number.base10_digits().parse::<f64>().ok(),
+            syn::Expr::Unary(syn::ExprUnary {
+                op: syn::UnOp::Neg(_),
+                expr,
+                ..
+            }) => Self::number_of(expr).map(|value| -value),
+            syn::Expr::Paren(inner) => Self::number_of(&inner.expr),
+            syn::Expr::Group(inner) => Self::number_of(&inner.expr),
+            _ => None,
+        }
+    }
+
     /// Parse length constraints from validator tokens
+    #[allow(dead_code)]
     fn parse_length_from_tokens(&self, tokens: &str) -> Option<LengthConstraint> {
         if !tokens.contains("length") {
             return None;
@@ -123,6 +221,7 @@ impl ValidatorParser {
     }
 
     /// Parse range constraints from validator tokens
+    #[allow(dead_code)]
     fn parse_range_from_tokens(&self, tokens: &str) -> Option<RangeConstraint> {
         if !tokens.contains("range") {
             return None;
@@ -187,6 +286,7 @@ impl ValidatorParser {
 
     /// Parse message parameter from validator content
     /// Handles both "message = \"text\"" and "message = 'text'" formats
+    #[allow(dead_code)]
     fn parse_message_from_content(&self, content: &str) -> Option<String> {
         if let Some(msg_pos) = content.find("message") {
             if let Some(eq_pos) = content[msg_pos..].find('=') {
